@@ -77,6 +77,9 @@ def gen_module(rnd, name):
 
 def gen_case(rnd, k):
     acts, cq, metas = [], [], []
+    if rnd.random() < .12:
+        # activated, then disabled: every later import is an ordinary import, whatever the module declares
+        acts += [['activate'], ['enabled', False]]; cq += ['AActivate', 'ASetEnabled false']; metas += [None, None]
     for j in range(rnd.randint(2, 6)):
         r = rnd.random()
         if r < .25: acts.append(['activate']); cq.append('AActivate'); metas.append(None)
@@ -87,7 +90,7 @@ def gen_case(rnd, k):
         else:
             name = f'm{k}_{j}'
             src, c, meta = gen_module(rnd, name)
-            acts.append(['import', name, src, rnd.choice(['module', 'module', 'package', 'submodule'])]); cq.append(f'AImport "{name}" {c}'); metas.append(meta)
+            acts.append(['import', name, src, rnd.choice(['module', 'module', 'package', 'submodule', 'namespace'])]); cq.append(f'AImport "{name}" {c}'); metas.append(meta)
     return acts, '[' + '; '.join(cq) + ']', metas
 
 
@@ -120,7 +123,7 @@ def monitor(acts, metas, obs):
                 # inert
                 if m['kind'] in ('decl', 'two') and any(c.startswith('unsupported:') for c in m['contracts']):
                     continue        # evaluating the arguments of the statement fails at run time, with or without deal
-                if res != plain and not (active and m['kind'] in ('decl', 'two')):
+                if res != plain:
                     out.append((f'contracts are disabled: the import must behave as without deal ({plain}); got {res}', tag)); break
                 continue
             if not active:
